@@ -433,6 +433,24 @@ func WaitAll(hs ...Handle) {
 	})
 }
 
+// Quiesce blocks the caller until every other thread is blocked (not merely unscheduled) on something
+// other than a virtual-time sleep, or finished: the system has nothing left to do by itself.
+func Quiesce() {
+	s := active
+	me := s.cur
+	Block("quiesce", func() bool {
+		for _, t := range s.threads {
+			if t == me || t.done {
+				continue
+			}
+			if t.blocked == nil || t.blocked() || t.blockOn == "Sleep" {
+				return false
+			}
+		}
+		return true
+	})
+}
+
 // OnAdvance, if set, is called on the controller just before virtual time moves from old to new
 // (new > old); idle reports that no program thread was enabled (time passes because everybody waits).  It may inspect shim/harness state and call FailNow; it must not reach a scheduling point.
 var OnAdvance func(old, new time.Time, idle bool)
